@@ -118,7 +118,13 @@ func (p *preprocessor) worker(workerID string) {
 		case <-controlChans.PauseCh:
 			logger.Debug("received pause event")
 			verifhook.At("pre.paused", workerID)
-			controlChans.ResumeCh <- struct{}{}
+			// Wait to be resumed, but not beyond shutdown: nobody resumes a stopping pipeline
+			select {
+			case controlChans.ResumeCh <- struct{}{}:
+			case <-p.ctx.Done():
+				logger.Debug("shutting down while paused")
+				return
+			}
 			verifhook.At("pre.woken", workerID)
 			logger.Debug("received resume event")
 		case seed, ok := <-p.inputCh:
